@@ -34,7 +34,7 @@ DATA = os.path.join(core.REPO, "tests", "data")
 BIN_SAMPLES = ["tiny", "mtxex.dll", "elf_with_imports", "0ca09bde7602769120fadc4f7a4147347a7a97271370583586c9e587fd396171",
                "tiny-idata-5200", "xor.out", "base64", "weird_rich", "tiny.notes", "6c2abf4b80a87e63eee2996e5cea8f004d49ec0c1806080fa72e960529cba14c"]
 WORDS = ["alpha", "bravo", "charlie", "delta", "echo", "foxtrot", "golf", "hotel", "india", "juliet"]
-RUN_TIMEOUT = 90          # a normal run takes well under 2 s; only a deadlocked binary gets here
+RUN_TIMEOUT = 60          # a normal run takes well under 2 s; only a deadlocked binary gets here
 HANG = {"n": 0}           # after the first hang the remaining runs get a short leash, after 3 the thread scenarios stop
 
 
@@ -679,9 +679,13 @@ def queue_cases(tier):
         for it in (r.choice([130, 200, 333]), r.choice([0, 1, 2, 63, 64, 65, 66])):
             cases.append("q%d n=%d items=%d seed=%d yield=%d" % (k, n, it, r.randint(1, 10 ** 6), r.choice([0, 50, 300])))
             k += 1
-    for _ in range(10 if quick else 300):
+    residues = list(range(65))
+    r.shuffle(residues)
+    for j in range(40 if quick else 400):
         n = r.choice(ns + [r.randint(1, 32)])
-        cases.append("q%d n=%d items=%d seed=%d yield=%d" % (k, n, r.choice(items + [r.randint(0, 400)]), r.randint(1, 10 ** 6), r.choice([0, 0, 20, 100, 300, 700])))
+        # final head position = items mod ring length: spread it over all residues (boundary-specific index bugs)
+        it = r.choice([0, 65, 130, 260]) + residues[j % 65] if r.random() < .8 else r.choice(items + [r.randint(0, 400)])
+        cases.append("q%d n=%d items=%d seed=%d yield=%d" % (k, n, it, r.randint(1, 10 ** 6), r.choice([0, 0, 20, 100, 300, 700])))
         k += 1
     if not quick:
         for n in (1, 4, 32):
@@ -724,7 +728,7 @@ def run_queue_flavour(chk, binary, cases, flavour, hist, slots, jobs=6):
 
     def one(chunk):
         try:
-            return core.run_lines([binary, "25"], chunk, timeout=600, env=env)
+            return core.run_lines([binary, "15"], chunk, timeout=600, env=env)
         except subprocess.TimeoutExpired:
             return [], -9, "harness timed out"
     with ThreadPoolExecutor(len(chunks)) as ex:
@@ -773,6 +777,10 @@ def run_queue_flavour(chk, binary, cases, flavour, hist, slots, jobs=6):
 def run(tier, replay=None):
     chk = core.Check(PID, tier)
     found = False
+    if not replay:
+        for f in os.listdir(os.path.join(core.OUT, PID)):        # replay files of earlier runs
+            if f.endswith(".json"):
+                os.remove(os.path.join(core.OUT, PID, f))
     try:
         tr = core.run_translators(["cli"])
     except Exception as e:                                   # the protocol's constants are no longer where T10 expects them
